@@ -117,8 +117,9 @@ pub fn data_texts(thorough: bool) -> Vec<&'static str> {
         "null", "1", "-1", "-2.5", "0", r#""str""#, r#""é😀""#, "[1,2,3]", "[]", r#"{"a":1}"#, r#"{"a":{"b":2},"é":"x"}"#, r#"{"a":0}"#, "true",
         r#" {"a" : [1, 2] } "#, "[-1]", r#""-1""#, r#"[1,"2",[3]]"#,
         r#"{"a":"say \"hi\"","sep":"\\","q":"\"","nl":"x\ny"}"#, r#""q\"uote\\ \u00e9 \u2028""#,
+        "\r\n[1,\r\n2]\r\n", "\t{\"a\":\t1}\n\n", "1e2", "1E+2", "0.10", "[1.0,2.50]",
         // invalid
-        "", "{", "nul", "'x'", "1 2", "[1,", "-",
+        "", "{", "nul", "'x'", "1 2", "[1,", "-", "\u{feff}1", "1,", "[1]]", "{\"a\":1}}", "\"a\nb\"", "00", "+1", ".5", "1.", "0x10", "Infinity",
     ];
     if thorough {
         v.extend(["-1e2", "-0", "1e999", "-9223372036854775809", "18446744073709551616", "\"\\ud800\"", "{\"a\":1,}", "\n\n3\n"]);
@@ -192,6 +193,15 @@ pub fn c18(ctx: &mut Ctx) {
                 judge_cli(ctx, "stdin-no-argument", kind, vec![r.to_string()], Some(d), Some((r, d)), true);
                 ctx.edge();
                 judge_cli(ctx, "stdin-dash", kind, vec![r.to_string(), "-".to_string()], Some(d), Some((r, d)), true);
+            }
+        }
+        // large documents on stdin and as argument
+        if ctx.mine() {
+            let big: String = format!("[{}]", (0..20000).map(|i| i.to_string()).collect::<Vec<_>>().join(","));
+            let bigs = format!("\"{}\"", "é".repeat(60000));
+            for (r, d) in [(r#"{"reduce":[{"var":""},{"+":[{"var":"current"},{"var":"accumulator"}]},0]}"#, big.as_str()), (r#"{"var":"19999"}"#, big.as_str()), (r#"{"substr":[{"var":""},-3]}"#, bigs.as_str()), (r#"{"cat":[{"var":""},"!"]}"#, bigs.as_str())] {
+                judge_cli(ctx, "large:stdin", kind, vec![r.to_string()], Some(d), Some((r, d)), true);
+                judge_cli(ctx, "large:argument", kind, vec![r.to_string(), d.to_string()], None, Some((r, d)), true);
             }
         }
         // nesting at the parser's limit, both as rule and as data
